@@ -29,7 +29,11 @@ RULE = (
     "of the other utterance except dtype/width/dimensionality agreement and write-back order, which "
     "is what the pair menus cross. Each initial state is explored breadth-first to depth 3 over the "
     "transitions validate(None), validate(fix=0|1|2) for data sets configured plain, with sos/eos, and "
-    "(single-utterance states, features ok) tokens_only / suppress_uttids=False; states are de-duplicated by canonical hash. In every "
+    "(single-utterance states, features ok) tokens_only / suppress_uttids=False; states are de-duplicated by canonical hash. Histories run on ONE long-lived data set "
+    "object per initial state: after every validate call (raising or not) its public attributes/params/"
+    "transform must be unchanged and - non-plain configurations (with_uttids also carries delta_order=1) - "
+    "every item must equal the item of a freshly built data set on the current directory and write_hyp "
+    "through it must still strip exactly the configured sos/eos. In every "
     "expanded state all four transitions are compared with spec_valid/spec_repair; in valid states the "
     "report of get-torch-spect-data-dir-info (with and without --strict) is compared with a recount; "
     "depth-0 single-utterance states are also pushed through the command's --strict/--fix k. "
@@ -44,7 +48,9 @@ ASSUMPTIONS = [
     "upcast menu = documented 'bytes or 32-bit integers' (uint8, int32); int8/int16 not explored",
     "statistics are compared only in valid directories with >=1 utterance (the help text promises "
     "nothing for invalid ones)",
-    "a fresh SpectDataSet object is built for every transition (the directory is the whole state)",
+    "one SpectDataSet object per initial state is used for every validate call of its exploration (the calls "
+    "arrive in breadth-first order while the directory is reset underneath, which is legal because the object "
+    "holds no state besides its configuration and the unchanging listing); the command builds its own",
     "total_tokens: with ref/ present but every listed transcript empty both 0 and -1 are accepted "
     "('the sum of R ... (if available, -1 if not)' is ambiguous); such reports are counted",
     "quick tier: non-plain data-set configurations only on directories whose features are ok",
@@ -265,6 +271,7 @@ class Dir:
 
     def close(self):
         shutil.rmtree(self.root, ignore_errors=True)
+        shutil.rmtree(self.root + ".hyp", ignore_errors=True)
         if os.path.exists(self.out):
             os.remove(self.out)
 
@@ -276,9 +283,125 @@ def scratch(tag):
 
 
 def make_ds(root, config):
-    params = data.SpectDataParams(sos=SOS, eos=EOS) if config == "sos_eos" else None
+    if config == "sos_eos":
+        params = data.SpectDataParams(sos=SOS, eos=EOS)
+    elif config == "with_uttids":
+        params = data.SpectDataParams(delta_order=1)  # a feature transform as well as utterance ids
+    else:
+        params = None
     return data.SpectDataSet(root, params=params, warn_on_missing=False, suppress_alis=False,
                              tokens_only=(config == "tokens_only"), suppress_uttids=(config != "with_uttids"))
+
+
+# ---- one long-lived data set object per exploration (histories on ONE object) -----------------
+PUBLIC_ATTRS = ("data_dir", "feat_subdir", "ali_subdir", "ref_subdir", "file_prefix", "file_suffix",
+                "suppress_alis", "suppress_uttids", "tokens_only", "sos", "eos", "has_ali", "has_ref", "utt_ids")
+PARAM_ATTRS = ("sos", "eos", "delta_order", "do_mvn", "subset_ids")
+
+
+def public_config(ds):
+    cfg = {a: getattr(ds, a, "<missing>") for a in PUBLIC_ATTRS}
+    for a in PARAM_ATTRS:
+        cfg["params." + a] = getattr(ds.params, a, "<missing>")
+    cfg["utt_ids"] = list(cfg["utt_ids"])
+    return cfg
+
+
+class Obj:
+    """The caller's SpectDataSet, used for every validate call of one exploration."""
+
+    def __init__(self, D, config, init):
+        self.D, self.config = D, config
+        D.ensure(init)
+        self.renew(init)
+
+    def renew(self, current):
+        """(re)build the object on the directory as it is now (`current` = its content)."""
+        self.init = current
+        self.ds = make_ds(self.D.root, self.config)
+        self.cfg0 = public_config(self.ds)
+        self.transform0 = self.ds.transform
+        self.calls = []  # [(state, fix)] made on this object
+
+
+def read_all(ds):
+    out = []
+    for i in range(len(ds)):
+        try:
+            out.append(ds[i])
+        except Exception as e:  # noqa
+            out.append(("<raises>", type(e).__name__))
+    return out
+
+
+def same_item(x, y):
+    if isinstance(x, tuple) != isinstance(y, tuple):
+        return False
+    if not isinstance(x, tuple):
+        x, y = (x,), (y,)
+    if len(x) != len(y):
+        return False
+    for a, b in zip(x, y):
+        if isinstance(a, torch.Tensor) or isinstance(b, torch.Tensor):
+            if not (isinstance(a, torch.Tensor) and isinstance(b, torch.Tensor)):
+                return False
+            if a.dtype != b.dtype or a.shape != b.shape or not torch.equal(a, b):
+                return False
+        elif a != b:
+            return False
+    return True
+
+
+def show_item(x):
+    if isinstance(x, tuple):
+        return [show_item(v) for v in x]
+    if isinstance(x, torch.Tensor):
+        return {"dtype": str(x.dtype)[6:], "shape": list(x.shape), "data": x.tolist()}
+    return x
+
+
+def check_object(ctx, obj, fix, raised):
+    """After a validate call through the long-lived object: (i) public configuration unchanged,
+    (ii) every item equals the item of a freshly built data set on the current directory,
+    (iii) write_hyp through it still strips exactly the configured sos/eos. Returns True when intact."""
+    D, config, ds = obj.D, obj.config, obj.ds
+    ctx.case(1)
+    ctx.count("object_checks")
+    base = {"api": "validate_spect_data_set", "config": config, "fix": "none" if fix is None else fix,
+            "symptom": "data-set-object-changed-by-validation", "after": "raise" if raised else "success"}
+    case = {"kind": "object-history", "config": config, "init": obj.init,
+            "calls": [{"state": st, "fix": fx} for st, fx in obj.calls]}
+    found = []
+    cfg = public_config(ds)
+    diff = sorted(a for a in cfg if cfg[a] != obj.cfg0[a])
+    if ds.transform is not obj.transform0:
+        diff.append("transform")
+    if diff:
+        found.append((dict(base, what="attributes", attrs=",".join(diff)),
+                      {"before": {a: obj.cfg0.get(a, "transform") for a in diff},
+                       "after": {a: cfg.get(a, repr(ds.transform)) for a in diff}}))
+    if config != "plain" or diff:
+        got, want = read_all(ds), read_all(make_ds(D.root, config))
+        bad = [i for i in range(max(len(got), len(want)))
+               if i >= len(got) or i >= len(want) or not same_item(got[i], want[i])]
+        if bad:
+            i = bad[0]
+            found.append((dict(base, what="item"),
+                          {"index": i, "fresh_data_set": show_item(want[i]) if i < len(want) else None,
+                           "long_lived": show_item(got[i]) if i < len(got) else None}))
+        ctx.outcome(["object-read", config, [len(x) if isinstance(x, tuple) else 1 for x in want]])
+        hyp_dir = D.root + ".hyp"
+        try:
+            ds.write_hyp("h", torch.tensor([SOS, 1, EOS, 2]), hyp_dir)
+            st = torch.load(os.path.join(hyp_dir, "h.pt")).tolist()
+        except Exception as e:  # noqa
+            st = ["<raises>", type(e).__name__]
+        want_h = O.spec_strip([SOS, 1, EOS, 2], *((SOS, EOS) if config == "sos_eos" else (None, None)))
+        if st != want_h:
+            found.append((dict(base, what="write_hyp"), {"expected": want_h, "stored": st}))
+    for sig, detail in found:
+        ctx.violation(sig, case, detail)
+    return not found
 
 
 def decorate(t):
@@ -307,14 +430,14 @@ def diff_paths(x, y):
 # =========================================================================================
 # one transition against the reference model
 # =========================================================================================
-def run_validate(D, config, fix, entry):
+def run_validate(D, config, fix, entry, ds=None):
     """returns (error or None, warned, report or None)."""
     err, report = None, None
     with warnings.catch_warnings(record=True) as wl:
         warnings.simplefilter("always")
         try:
             if entry == "function":
-                data.validate_spect_data_set(make_ds(D.root, config), fix)
+                data.validate_spect_data_set(ds if ds is not None else make_ds(D.root, config), fix)
             else:
                 args = [D.root, D.out] + (["--strict"] if fix is None else ["--fix", str(fix)])
                 rc = CL.get_torch_spect_data_dir_info(args)
@@ -341,13 +464,17 @@ def read_report(path):
     return table
 
 
-def eval_transition(ctx, D, state, config, fix, entry="function", after_fix=False):
+def eval_transition(ctx, D, state, config, fix, entry="function", after_fix=False, obj=None):
     """Applies one transition to `state`; returns the state actually reached."""
     D.ensure(state)
     conds = O.violated_conditions(state)
     valid = not conds
-    err, warned, report = run_validate(D, config, fix, entry)
+    if obj is not None:
+        obj.calls.append((state, fix))
+    err, warned, report = run_validate(D, config, fix, entry, ds=obj.ds if obj is not None else None)
     post = D.snapshot()
+    if obj is not None and not check_object(ctx, obj, fix, err is not None):
+        obj.renew(post)  # report each corruption once, from a clean object
     ctx.transitions += 1
     ctx.traces += 1
     ctx.case(1)
@@ -511,6 +638,7 @@ def check_info(ctx, D, state):
 # =========================================================================================
 def explore_from(ctx, D, init, config, visited, depth=3, cli=False):
     frontier = [(init, False)]
+    obj = Obj(D, config, init)
     for level in range(depth):
         nxt = []
         for state, after_fix in frontier:
@@ -523,7 +651,7 @@ def explore_from(ctx, D, init, config, visited, depth=3, cli=False):
             if config == "plain" and not O.violated_conditions(state) and O.utterances(state):
                 check_info(ctx, D, state)
             for fix in FIXES:
-                post = eval_transition(ctx, D, state, config, fix, after_fix=after_fix)
+                post = eval_transition(ctx, D, state, config, fix, after_fix=after_fix, obj=obj)
                 hp = h64(post)
                 ctx.state(hp)
                 if hp != hs:
@@ -703,6 +831,15 @@ def replay(case):
     try:
         if case["kind"] == "transition":
             eval_transition(ctx, D, case["state"], case["config"], case["fix"], entry=case["entry"])
+        elif case["kind"] == "object-history":
+            obj = Obj(D, case["config"], case["init"])
+            for call in case["calls"]:
+                D.ensure(call["state"])
+                obj.calls.append((call["state"], call["fix"]))
+                err, _, _ = run_validate(D, case["config"], call["fix"], "function", ds=obj.ds)
+                D.snapshot()
+                if not check_object(ctx, obj, call["fix"], err is not None):
+                    break
         elif case["kind"] == "info":
             check_info(ctx, D, case["state"])
         elif case["kind"] == "roundtrip":
